@@ -62,6 +62,27 @@ def gen_o2o(rng, n=None):
     return t
 
 
+def twin(rng, t0):
+    """the same characters, opcodes and cells in the same order, the cells dealt out differently: compiles to an image of
+    exactly the same size, so that after lou_free() it is allocated where its twin was"""
+    t = G.Tbl()
+    rs = [r for r in t0.rules if r.chars != [0x20]]
+    cells = [r.cells[0] for r in rs]
+    perm = cells[1:] + cells[:1] if len(cells) > 1 else cells
+    k = 0
+    for r in t0.rules:
+        if r.chars == [0x20]:
+            t.rules.append(G.Rule("space", [0x20], [0]))
+            t.charcell[0x20] = 0
+            t.attrs[0x20] = "space"
+        else:
+            t.rules.append(G.Rule(r.opcode, list(r.chars), [perm[k]]))
+            t.charcell[r.chars[0]] = perm[k]
+            t.attrs[r.chars[0]] = r.opcode
+            k += 1
+    return t
+
+
 def run(tier):
     v = common.Verdict("C11", tier)
     rng = random.Random(common.seed() * 1000003 + 11)
@@ -74,12 +95,23 @@ def run(tier):
         return v.finish()
     ntab = 40 if tier == "quick" else 600
     cases = []
+    prev_last = None
+    prev_t = None
     for i in range(ntab):
-        t = gen_o2o(rng)
+        is_twin = prev_t is not None and i % 8 and rng.random() < 0.5
+        if is_twin:
+            t = twin(rng, prev_t)          # same process (batches of 8 consecutive cases), same image size
+        else:
+            t = gen_o2o(rng)
+        prev_t = t
         late = []
         rules = list(t.rules)
-        if rng.random() < 0.4 and len(rules) > 3:
-            k = rng.randint(1, min(5, len(rules) - 2))
+        if is_twin:
+            k = prev_k                     # and the same split into file and run-time definitions
+        else:
+            k = rng.randint(1, min(5, len(rules) - 2)) if (rng.random() < 0.4 and len(rules) > 3) else 0
+        prev_k = k
+        if k:
             late, rules = rules[-k:], rules[:-k]
         txt = "\n".join(r.text() for r in rules) + "\n"
         tn = "o%d.ctb" % i
@@ -91,12 +123,37 @@ def run(tier):
             s = [rng.choice(cs) for _ in range(rng.choice([0, 1, 2, 7, 30]))]
             ops.append("FWD %s 4 %d - 140 %s - -" % (tn, len(s) + rng.choice([0, 0, 5]), common.wide(s)))
             ops.append("BWD %s 4 %d - 140 %s - -" % (tn, len(s) + rng.choice([0, 0, 5]), common.wide([0x8000 | t.charcell[c] for c in s])))
-        cases.append(common.Case("c11-%d" % i, setup, ops, {"tbl": t, "tn": tn, "nlate": len(late), "text": txt}))
+        # the display side of the same table: character <-> cell conversions in both representations of a cell
+        # (0x8000|dots and Unicode braille), text-mode round trips, and lou_free() before the next table is loaded
+        conv = []
+        if max(t.charcell.values()) <= 255:
+            # first display lookup of this table = the cell looked up last in the previous table of the same process
+            # (if this table defines it), last lookup = a random cell: a lookup cache that survives lou_free() answers
+            # with the previous table's character
+            own = sorted(set(t.charcell.values()) - {0})
+            first = prev_last if prev_last in own else rng.choice(own)
+            conv.append("D2C %s 0 %s" % (tn, common.wide([0x8000 | first])))
+            allch = [c for c in cs if c != 0x20]
+            rng.shuffle(allch)
+            allch = allch[:64]
+            for m in (0, 64):
+                conv.append("C2D %s %d %s" % (tn, m, common.wide(allch)))
+                conv.append("D2C %s %d %s" % (tn, m, common.wide([(0x2800 if (m or rng.random() < 0.3) else 0x8000) | t.charcell[c] for c in allch])))
+            for _ in range(3):
+                s = [rng.choice(cs) for _ in range(rng.choice([1, 2, 7, 30]))]
+                conv.append("FWD %s 0 %d - 12 %s - -" % (tn, len(s) + 2, common.wide(s)))
+                conv.append("BWD %s 0 %d - 12 %s - -" % (tn, len(s) + 2, common.wide(s)))
+                conv.append("FWD %s 68 %d - 12 %s - -" % (tn, len(s) + 2, common.wide(s)))
+                conv.append("BWD %s 4 %d - 12 %s - -" % (tn, len(s) + 2, common.wide([0x2800 | t.charcell[c] for c in s])))
+            prev_last = rng.choice(own)
+            conv.append("D2C %s 0 %s" % (tn, common.wide([0x8000 | prev_last])))
+        cases.append(common.Case("c11-%d" % i, setup, ops + conv + ["FREE"], {"tbl": t, "tn": tn, "nlate": len(late), "text": txt,
+                                                                             "nmain": len(ops), "conv": conv, "allch": allch if conv else []}))
     # shipped tables: dump, structural test, then round trip where it passes
     shipped = corpus.quick_tables() if tier == "quick" else corpus.all_tables()
     for si, st_name in enumerate(shipped):
         cases.append(common.Case("c11-s%d" % si, [], ["DUMP %s" % corpus.tpath(st_name)], {"shipped": st_name}))
-    common.run_cases(exe, cases, batch=8, timeout=300)
+    common.run_cases(exe, cases, batch=8, timeout=300, env=common.ASAN_REUSE)
     lines, tags = [], []
     for c in cases:
         if c.fault or not c.out:
@@ -107,7 +164,8 @@ def run(tier):
         name = c.meta.get("tn") or ("s-" + c.meta["shipped"])
         lines.append("LOADTABLE %s %s" % (name, c.out[di].rsplit(" e=", 1)[0])); tags.append(("load", c, None))
         lines.append("MONETOONE %s" % name); tags.append(("o2o", c, None))
-        for op, o in zip(c.ops[di + 1:], c.out[di + 1:]):
+        nm = c.meta.get("nmain", len(c.ops))
+        for op, o in zip(c.ops[di + 1:nm], c.out[di + 1:nm]):
             t = op.split(" ")
             lines.append("%s %s %s %s %s %s" % ("MFWD" if t[0] == "FWD" else "MBWD", name, t[2], t[3], t[4], t[6]))
             tags.append(("eng", c, (op, o)))
@@ -150,7 +208,45 @@ def run(tier):
         dist["max_alphabet"] = max(dist["max_alphabet"], len(t.charcell))
         if c.meta["nlate"]:
             dist["with_late_definitions"] += 1
-        for op, o in zip(c.ops, c.out):
+        nm = c.meta["nmain"]
+        for op, o in zip(c.ops[nm:], c.out[nm:]):
+            tk = op.split(" ")
+            if tk[0] in ("C2D", "D2C"):
+                v.cov["evaluations"] += 1
+                dist["conversions"] = dist.get("conversions", 0) + 1
+                inp = common.unwide(tk[3])
+                got = common.unwide(o.split(" ")[2]) if o.startswith("V 1 ") else None
+                if tk[0] == "C2D":
+                    want = [(0x2800 if tk[2] == "64" else 0x8000) | t.charcell[ch] for ch in inp]
+                else:
+                    inv = {cell: ch for ch, cell in t.charcell.items()}
+                    want = [inv[x & 0xff] for x in inp]
+                if got != want:
+                    bad = next((i for i in range(len(want)) if got is None or i >= len(got) or got[i] != want[i]), 0)
+                    v.violation("C11:conv:%s:%s" % (tk[0], "ucbrl" if tk[2] == "64" else "dots"),
+                                "one-to-one table: %s (mode %s) of %04x gave %s, the table says %04x" % (
+                                    "lou_charToDots" if tk[0] == "C2D" else "lou_dotsToChar", tk[2], inp[bad] if inp else 0,
+                                    ("%04x" % got[bad]) if got and bad < len(got) else o[:40], want[bad] if want else 0),
+                                {"script": c.setup + [x for x in c.ops if x.startswith("ADD")] + [op], "result": o[:400]})
+            elif tk[0] in ("FWD", "BWD"):
+                R = common.parse_R(o)
+                if R is None:
+                    continue
+                v.cov["evaluations"] += 1
+                dist["roundtrips"] += 1
+                inp = common.unwide(tk[6])
+                if tk[0] == "FWD":
+                    want = inp if tk[2] == "0" else [0x2800 | t.charcell[ch] for ch in inp]
+                elif tk[2] == "0":
+                    want = inp
+                else:
+                    inv = {cell: ch for ch, cell in t.charcell.items()}
+                    want = [inv[x & 0xff] for x in inp]
+                if not (R["ret"] == 1 and R["out"] == want and R["inlen"] == len(inp)):
+                    v.violation("C11:roundtrip:%s:mode%s" % (tk[0], tk[2]), "one-to-one table: %s mode %s of %s gave %s (ret %d, lengths %d/%d), expected %s" % (
+                        tk[0], tk[2], common.wide(inp)[:80], common.wide(R["out"])[:80], R["ret"], R["inlen"], R["outlen"], common.wide(want)[:80]),
+                        {"script": c.setup + [x for x in c.ops if x.startswith("ADD")] + [op], "result": o[:800]})
+        for op, o in zip(c.ops[:nm], c.out[:nm]):
             if op.startswith("ADD") and not o.startswith("D 1"):
                 v.violation("C11:add:rejected", "late definition rejected by lou_compileString: %s" % op[:120], {"script": c.setup + c.ops[:3], "result": o})
             if not op.startswith(("FWD", "BWD")):
@@ -179,6 +275,51 @@ def run(tier):
                     {"script": c.setup + [x for x in c.ops if x.startswith("ADD")] + [op], "result": o[:800]})
         if len(v.cov["samples"]) < 3:
             v.sample({"table": c.meta["text"][:200], "chars": len(t.charcell)})
+    # twin pairs across lou_free(): table a, lookups, lou_free(), table b = a with the cells dealt out differently (same
+    # image size, so it is allocated where a was when freed blocks are reused at once); every lookup must answer from b
+    pair_cases = []
+    for i in range(12 if tier == "quick" else 300):
+        ta = gen_o2o(rng, rng.choice([2, 3, 5, 12, 40]))
+        if max(ta.charcell.values()) > 255:
+            continue
+        tb = twin(rng, ta)
+        an, bn = "pa%d.ctb" % i, "pb%d.ctb" % i
+        cells = sorted(set(ta.charcell.values()) - {0})
+        rng.shuffle(cells)
+        chars = [c for c in ta.chars() if c != 0x20]
+        rng.shuffle(chars)
+        ops = ["C2D %s 0 %s" % (an, common.wide(chars)), "D2C %s 0 %s" % (an, common.wide([0x8000 | x for x in cells])), "FREE",
+               "D2C %s 0 %s" % (bn, common.wide([0x8000 | cells[-1]])), "C2D %s 0 %s" % (bn, common.wide([chars[-1]])),
+               "FWD %s 0 %d - 12 %s - -" % (bn, len(chars), common.wide(chars[-1:] + chars[:-1])),
+               "BWD %s 0 %d - 12 %s - -" % (bn, len(chars), common.wide(chars[-1:] + chars[:-1])), "FREE"]
+        pair_cases.append(common.Case("c11-p%d" % i, ["TBL %s %s" % (an, common.hexbytes(ta.text())), "TBL %s %s" % (bn, common.hexbytes(tb.text()))],
+                                      ops, {"a": ta, "b": tb, "an": an}))
+    common.run_cases(exe, pair_cases, batch=1, timeout=120, env=common.ASAN_REUSE)
+    dist["twin_pairs"] = len(pair_cases)
+    for c in pair_cases:
+        if c.fault:
+            continue
+        for op, o in zip(c.ops, c.out):
+            tk = op.split(" ")
+            if tk[0] == "FREE":
+                continue
+            t = c.meta["a"] if tk[1] == c.meta["an"] else c.meta["b"]
+            v.cov["evaluations"] += 1
+            if tk[0] in ("C2D", "D2C"):
+                inp = common.unwide(tk[3])
+                got = common.unwide(o.split(" ")[2]) if o.startswith("V 1 ") else None
+                inv = {cell: ch for ch, cell in t.charcell.items()}
+                want = [0x8000 | t.charcell[ch] for ch in inp] if tk[0] == "C2D" else [inv[x & 0xff] for x in inp]
+            else:
+                R = common.parse_R(o)
+                inp = common.unwide(tk[6])
+                got = R["out"] if (R and R["ret"]) else None
+                want = inp
+            if got != want:
+                v.violation("C11:twin:%s" % tk[0], "after lou_free() and loading a table with the same characters and differently assigned cells, "
+                            "%s of %s gave %s, the table now in use says %s" % (tk[0], common.wide(inp)[:60], common.wide(got)[:60] if got is not None else o[:40],
+                                                                               common.wide(want)[:60]),
+                            {"script": c.setup + c.ops[: c.ops.index(op) + 1], "result": o[:400], "env": common.ASAN_REUSE})
     # shipped tables passing the test: forward then backward on strings over their characters
     rt_cases = []
     for name in shipped_o2o:
